@@ -475,3 +475,45 @@ def cli_subset(chk, work, count, stats):
             if len(found) >= 3:
                 break
     return found
+
+# ----------------------------------------------------------------------------- charset declarations the two loaders may read differently
+
+DECLARATIONS = [
+    # (Content-Type value, does gettext (strstr "charset=" … up to blank/tab/newline) read UTF-8 from it?)
+    ('text/plain; charset=UTF-8', True),
+    ('text/plain;  charset=UTF-8', True),
+    ('text/plain; charset=UTF-8\tx', True),
+    ('text/plain;charset=UTF-8', True),          # no blank before `charset=`
+    ('charset=UTF-8', True),                     # `charset=` directly after the colon and the blank
+    ('text/plain;\tcharset=UTF-8', True),        # a tab before `charset=`
+    ('text/x-po; charset=UTF-8', True),
+]
+
+def charset_declarations(chk, work, stats):
+    """PO vs MO for header entries whose Content-Type names the charset in an unusual but gettext-readable place.
+    → list of (key, discrepancy): one per declaration on which the two files of one catalog get different diagnostics"""
+    M.H.ready()
+    out = []
+    for ct, _gettext_reads in DECLARATIONS:
+        hdr = [(k, (ct if k == 'Content-Type' else v)) for k, v in G.HEADER_BASE if k != 'Plural-Forms']
+        cat = dict(family='latin2', header=hdr, hflags=[], initial='', msgs=[
+            dict(ctxt=None, msgid='turtle\n', plural=None, forms=['żółw'], flags=[], comments=[], obsolete=False, previous=None)])
+        po = G.render_po(cat, 'UTF-8', G.Style(chk.rng, 0))
+        mo = G.render_mo(cat, 'UTF-8', G.gen_layout(chk.rng, simple=True))
+        tp = M.tags_of_bytes(work, 'decl/x.po', po)
+        tm = M.tags_of_bytes(work, 'decl/x.mo', mo)
+        stats['charset_declarations'] += 1
+        if M.drop(tp, exact=[M.MO_EXEMPT]) != tm:
+            # the recorded input class: gettext's rule finds the charset, polib's line regex does not, and the PO side alone is broken-encoding
+            import re as _re
+            raw_line = ('"Content-Type: ' + ct.replace('\t', '\\t') + '\\n"').encode()
+            polib_misses = _re.search(rb'"?Content-Type:.+? charset=([\w_\-:\.]+)', raw_line) is None
+            po_broken = tp[0] == 'ok' and any(n == 'broken-encoding' for n, _ in tp[1]) and not (tm[0] == 'ok' and any(n == 'broken-encoding' for n, _ in tm[1]))
+            if _gettext_reads and polib_misses and po_broken:
+                key = 'po-vs-mo:charset-declaration:polib-regex-misses'
+            else:
+                key = 'po-vs-mo:charset-declaration:' + ct.replace('\t', '\\t')
+            out.append((key, _pair_replay('po-vs-mo-charset-declaration', cat, po, mo, tp, tm, {'content_type': ct,
+                        'note': 'the PO loader (polib.detect_encoding: `"?Content-Type:.+? charset=([\\w_\\-:\\.]+)` on raw lines) and the MO loader '
+                                '(`charset=([^ \\t\\n]+)` on the header entry, like gettext) disagree about the declared charset'}, 'decl/x.{po,mo}')))
+    return out
